@@ -355,7 +355,15 @@ class C02Scenario(object):
         return self.generate(rng)
 
     def generate(self, rng):
-        base = gen_request(rng) if rng.random() < 0.8 else rng.choice(structural_variants())
+        k = rng.random()
+        if k < 0.12:
+            # arbitrary Unicode text
+            alpha = list('{}[]":,\\ \n\t0123456789.-+eEtruefalsn') + ["é", "中", "\U0001F600", "\u0000", "\ufeff", "\u2028", "method", "jsonrpc", "id", "params"]
+            base = "".join(rng.choice(alpha) for _ in range(rng.randint(0, 60)))
+        elif k < 0.82:
+            base = gen_request(rng)
+        else:
+            base = rng.choice(structural_variants())
         dm = damages_of(base)
         rng.shuffle(dm)
         return {"server": rng.choice(["plain", "pooled", "dispatcher"]), "version": rng.choice([2.0, 1.0]),
